@@ -137,6 +137,17 @@ class WriterModel(object):
         return self.py.try_fold(node, self.mod)
 
     def tuple_row(self, node, env, guards, method):
+        if isinstance(node, ast.Name) and isinstance(env.get(node.id), str):
+            try:
+                sub = ast.parse(env[node.id], mode='eval').body
+                if isinstance(sub, ast.Tuple):
+                    ast.copy_location(sub, node)
+                    for x in ast.walk(sub):
+                        if not hasattr(x, 'lineno'):
+                            x.lineno = node.lineno
+                    node, env = sub, {}
+            except SyntaxError:
+                pass
         if isinstance(node, ast.Tuple) and len(node.elts) == 2:
             k = self.py.try_fold(node.elts[0], self.mod)
             if k is None:
@@ -155,6 +166,26 @@ class WriterModel(object):
         if isinstance(node, ast.Constant) and node.value is None:
             return []
         raise AnalysisError('%s:%d: cannot interpret attribute list expression %s' % (method, getattr(node, 'lineno', 0), P.src(node)))
+
+    def const_alts(self, ifexp, env):
+        """both arms of a conditional expression are string constants (a tag name chosen by a condition)"""
+        for arm in (ifexp.body, ifexp.orelse):
+            v = self.py.try_fold(arm, self.mod)
+            if v is None:
+                v = self.fold_text(subst(arm, env))
+            if not isinstance(v, str):
+                return False
+        return True
+
+    def is_pair(self, e, env):
+        if isinstance(e, ast.Tuple):
+            return True
+        if isinstance(e, ast.Name) and isinstance(env.get(e.id), str):
+            try:
+                return isinstance(ast.parse(env[e.id], mode='eval').body, ast.Tuple)
+            except SyntaxError:
+                return False
+        return False
 
     # ------------------------------------------------------------------ interpreter
     def call(self, name, env, lists, guards, sink):
@@ -199,8 +230,13 @@ class WriterModel(object):
                 continue
             if isinstance(a, ast.Name) and a.id in lists:
                 nlists[p] = lists[a.id]
-            elif isinstance(a, (ast.List,)) and all(isinstance(e, ast.Tuple) for e in a.elts):
+            elif isinstance(a, (ast.List,)) and all(self.is_pair(e, env) for e in a.elts):
                 nlists[p] = SymList(self.rows_of(a, env, lists, [], callee))
+            elif isinstance(a, ast.Name) and isinstance(env.get(a.id), Phi):
+                nenv[p] = env[a.id]
+            elif isinstance(a, ast.IfExp) and self.const_alts(a, env):
+                t = subst(a.test, env)
+                nenv[p] = Phi([(subst(a.body, env), [(t, True)]), (subst(a.orelse, env), [(t, False)])])
             else:
                 nenv[p] = subst(a, env)
         return nenv, nlists
@@ -209,7 +245,7 @@ class WriterModel(object):
         if isinstance(st, ast.Assign) and len(st.targets) == 1 and isinstance(st.targets[0], ast.Name):
             v = st.targets[0].id
             val = st.value
-            if isinstance(val, ast.List) and (not val.elts or all(isinstance(e, ast.Tuple) for e in val.elts)):
+            if isinstance(val, ast.List) and (not val.elts or all(self.is_pair(e, env) for e in val.elts)):
                 lists[v] = SymList(self.rows_of(val, env, lists, guards_for_new_list(guards), method))
                 env.pop(v, None)
                 return
@@ -218,7 +254,13 @@ class WriterModel(object):
                 lists[v] = SymList(lists[val.args[0].id].rows)
                 return
             self.expr_calls(val, env, lists, guards, sink, method)
-            env[v] = subst(val, env)
+            if isinstance(val, ast.IfExp) and self.const_alts(val, env):
+                t = subst(val.test, env)
+                env[v] = Phi([(subst(val.body, env), [(t, True)]), (subst(val.orelse, env), [(t, False)])])
+            elif isinstance(val, ast.Name) and isinstance(env.get(val.id), Phi):
+                env[v] = env[val.id]
+            else:
+                env[v] = subst(val, env)
             lists.pop(v, None)
             return
         if isinstance(st, ast.Assign):
@@ -313,6 +355,13 @@ class WriterModel(object):
                 return
             raise AnalysisError('%s:%d: unsupported list operation %s' % (method, e.lineno, P.src(e)))
         if nm == 'self.write_tag':
+            if e.args and isinstance(e.args[0], ast.Name) and isinstance(env.get(e.args[0].id), Phi):
+                var = e.args[0].id
+                for text, gs in env[var].alts:
+                    e2 = dict(env)
+                    e2[var] = text
+                    self.element(e, e2, lists, guards + gs, sink, method, data=True)
+                return
             self.element(e, env, lists, guards, sink, method, data=True)
             return
         if nm == 'self.tagcontext':
